@@ -122,7 +122,7 @@ class StructObjModel:
         return StructModel.unpack(self.format, data)
 
     def unpack_from(self, data, offset=0):
-        return StructModel.unpack(self.format, SymBytes.of(data)[offset:offset + self.size] if not isinstance(data, (bytes, bytearray)) else data[offset:offset + self.size])
+        return StructModel.unpack(self.format, SymBytes.of(data)[offset:offset + self.size] if type(data) not in (bytes, bytearray) else data[offset:offset + self.size])
 
     def __repr__(self):
         return f"<StructObjModel {self.format}>"
@@ -712,6 +712,7 @@ def td_us(x):
 
 class TD:
     """Model of datetime.timedelta: exact integer microseconds."""
+    __class__ = property(lambda self: _dt.timedelta)  # C-level isinstance() / `match` class patterns see the represented type
 
     __slots__ = ("us",)
     min = _dt.timedelta.min
@@ -853,6 +854,7 @@ class TD:
 
 class TZ:
     """Fixed-offset tzinfo model."""
+    __class__ = property(lambda self: _dt.tzinfo)  # C-level isinstance() / `match` class patterns see the represented type
 
     __slots__ = ("offset_s", "real")
 
@@ -893,6 +895,7 @@ def _tz_of(tz):
 
 class DT:
     """Model of an aware datetime: UTC epoch seconds + microsecond + fixed offset."""
+    __class__ = property(lambda self: _dt.datetime)  # C-level isinstance() / `match` class patterns see the represented type
 
     __slots__ = ("secs", "micro", "tz")
     min = _dt.datetime.min
